@@ -8,7 +8,7 @@
    every correspondence case).  A document is any arrangement of references and definitions
    (Foot.doc); [run isdigit int_of fx footnote_sort footnote_transition d] is the whole pipeline. *)
 From Coq Require Import List NArith ZArith Bool Permutation Sorted.
-From MV Require Import Base.PyStr Base.Res Refs.RUtil Gen.Transforms Refs.Foot Refs.FootProofs.
+From MV Require Import Base.PyStr Base.Res Refs.RUtil Gen.Transforms Refs.Foot Refs.FootOps Refs.FootProofs Gen.FootSrc Refs.FootSrcProofs.
 Import ListNotations.
 Open Scope N_scope.
 
@@ -162,6 +162,62 @@ Theorem C11_no_text_lost : forall isdigit int_of fx, O_footnotes fx ->
     Permutation (layout_foots (x_layout r)) (map fst (firsts [] (all_defs d))).
 Proof. exact no_text_lost. Qed.
 Print Assumptions C11_no_text_lost.
+
+(* ---- the same statements for the code as it is in the source now ----------------------------------
+   [run_src] is the pipeline in which SortFootnotes.apply, UnreferencedFootnotesDetector.apply and
+   CollectFootnotes.apply are the Gallina definitions that gen/c11_src.py REGENERATES from transforms.py on
+   every run (Gen/FootSrc.v, statement by statement; domain mapping = Refs/FootOps.v); Refs/FootSrcProofs.v
+   proves them equal to the model (sort_footnotes_src_eq, unreferenced_src_eq, collect_footnotes_src_eq:
+   the loop "footnote.parent.remove(footnote); document += footnote" leaves no footnote at any depth), hence
+   run_src = run.  An edit of one of the three methods changes Gen/FootSrc.v and these are re-checked. *)
+Theorem C11_run_src_is_run : forall isdigit int_of fx, O_footnotes fx ->
+  forall fs ft d, run_src isdigit int_of fx fs ft d = run isdigit int_of fx fs ft d.
+Proof. exact run_src_eq. Qed.
+Print Assumptions C11_run_src_is_run.
+
+Theorem C11_auto_order_partial_src : forall isdigit int_of fx, O_footnotes fx ->
+  forall ft d r, run_src isdigit int_of fx true ft d = Ok r ->
+  forall fa fb ka kb i j,
+    In fa (x_foots r) -> In fb (x_foots r) ->
+    fo_num fa = Some ka -> fo_num fb = Some kb ->
+    index_of (lbl fa) (auto_ref_labels isdigit r) = Some i ->
+    index_of (lbl fb) (auto_ref_labels isdigit r) = Some j ->
+    (i < j)%nat -> ka < kb.
+Proof. exact auto_order_sorted_src. Qed.
+Print Assumptions C11_auto_order_partial_src.
+
+Theorem C11_referenced_first_src : forall isdigit int_of fx, O_footnotes fx ->
+  forall ft d r, run_src isdigit int_of fx true ft d = Ok r ->
+  forall fa fb ka kb i,
+    In fa (x_foots r) -> In fb (x_foots r) ->
+    fo_num fa = Some ka -> fo_num fb = Some kb ->
+    index_of (lbl fa) (auto_ref_labels isdigit r) = Some i ->
+    index_of (lbl fb) (auto_ref_labels isdigit r) = None ->
+    ka < kb.
+Proof. exact referenced_first_src. Qed.
+Print Assumptions C11_referenced_first_src.
+
+Theorem C11_collect_sorted_src : forall isdigit int_of fx, O_footnotes fx ->
+  forall ft d r, run_src isdigit int_of fx true ft d = Ok r ->
+    x_layout r = flat_map strip_top (snd (render_doc isdigit regs0 d))
+                 ++ transition_for ft (snd (render_doc isdigit regs0 d)) (x_foots r)
+                 ++ map (fun f => LFoot (f_label (fo_fn f))) (isort (collect_key int_of) ckey_leb (x_foots r))
+    /\ layout_foots (flat_map strip_top (snd (render_doc isdigit regs0 d))) = []
+    /\ Permutation (isort (collect_key int_of) ckey_leb (x_foots r)) (x_foots r)
+    /\ StronglySorted (fun a b => ckey_leb (collect_key int_of a) (collect_key int_of b) = true)
+                      (isort (collect_key int_of) ckey_leb (x_foots r)).
+Proof.
+  exact (fun isdigit int_of fx O ft d r H =>
+           conj (collect_layout_src isdigit int_of fx O ft d r H) (collect_sorted_src isdigit int_of fx O ft d r H)).
+Qed.
+Print Assumptions C11_collect_sorted_src.
+
+Theorem C11_dup_and_unreferenced_src : forall isdigit int_of fx, O_footnotes fx ->
+  forall fs ft d r, run_src isdigit int_of fx fs ft d = Ok r ->
+    exists tm, x_warn r = map WDup (dupls [] (all_defs d)) ++ tm ++ flat_map unref_warn (x_foots r)
+               /\ (tm = [] \/ tm = [WTooMany]).
+Proof. exact warnings_exact_src. Qed.
+Print Assumptions C11_dup_and_unreferenced_src.
 
 (* the order of the transforms, from the regenerated priorities and get_transforms lists *)
 Theorem C11_transform_order :
